@@ -156,7 +156,7 @@ def get_count__total_expansion__start_size(length, total_expansion, start_size):
         d_min = start_size * total_expansion
 
     if abs(total_expansion - 1) < constants.TOL:
-        return int(length / d_min)
+        return int(np.ceil(length / d_min))
 
     def fcnt(cnt):
         return (1 - total_expansion ** (cnt / (cnt - 1))) / (
